@@ -1,13 +1,18 @@
 SPECIFICATION Spec
 CONSTANTS
   Kind = "mps"
-  Impl = "asis"
+  Smp = "asis"
+  SumSamples = FALSE
+  ExpSamples = FALSE
   OptImpl = "fixed"
   Ctor = "bare"
-  N = 4
+  N = 3
   Chans = 1
   Temps = {"any"}
-  Acts = {"temp", "hard", "gumbel", "disable", "mode", "fwd", "alpha", "summary", "export"}
+  Acts = {"temp", "hard", "gumbel", "disable", "mode", "fwd", "alpha", "load", "summary", "export"}
+  Writes = {"copy", "data", "optim"}
+  Ckpts = {"soft", "onehot", "probF", "probT"}
+  Moves = "all"
   InitAlpha = "ctor"
   AllowKF = FALSE
 INVARIANT TypeOK
@@ -20,4 +25,4 @@ INVARIANT ExportIsArgmax
 INVARIANT ReportIsExport
 PROPERTY DisabledKeeps
 PROPERTY ThetaOnlyBySampling
-PROPERTY AlphaOnlyBySetAlpha
+PROPERTY AlphaOnlyByWrites
